@@ -194,8 +194,15 @@ def monitor_lines(infos):
     return out
 
 
-def compare(ctx, harness, rep, scripts, stats, label):
-    """run scripts on the real code and the model; report violations; returns number of disagreements"""
+def compare(ctx, harness, rep, scripts, stats, label, batch=40000):
+    """run scripts on the real code and the model (in batches, to bound memory); report violations"""
+    n = 0
+    for i in range(0, len(scripts), batch):
+        n += compare_batch(ctx, harness, rep, scripts[i:i + batch], stats, label)
+    return n
+
+
+def compare_batch(ctx, harness, rep, scripts, stats, label):
     if not scripts:
         return 0
     t0 = time.time()
@@ -252,6 +259,8 @@ def compare(ctx, harness, rep, scripts, stats, label):
                               {"script": sc, "step": k, "impl": a, "model": b, "correspondence": "harness/h_c09.c vs Driver/C09.lean"},
                               found_input=False)
     stats["disagreements"] += nbad
+    if stats.get("hserial") is not None:
+        threaded_vs_serial(ctx, stats["hserial"], scripts, impl, stats)
     return nbad
 
 
@@ -285,6 +294,84 @@ def random_long(ctx, rep, count, maxn, maxitems, length):
             toks += ["x"] + ["m", "w%d" % ctx.rng.randrange(n)] * (2 * n + 4) + ["w%d" % i for i in range(n)] * 3 + ["m"] * (n + 2)
         out.append("run %d %d %s %s" % (rep, n, rc, " ".join(toks)))
     return out
+
+
+def serial_scripts(ctx):
+    """serial pool: every op sequence over {submit next, dequeue, get_status} up to a length x failing position, plus random"""
+    import itertools
+    out = []
+    maxlen = 7 if ctx.quick() else 9
+    for n in range(0, maxlen + 1):
+        for t in itertools.product("sqg", repeat=n):
+            ops, k = [], 0
+            for c in t:
+                if c == "s":
+                    ops.append("s%d" % k); k += 1
+                else:
+                    ops.append(c)
+            for rc in (["-"] + ["%d:%d" % (j, -(j + 2)) for j in range(min(k, 3))]):
+                out.append("serial %s %s" % (rc, " ".join(ops + ["x"])))
+    for _ in range(2000 if ctx.quick() else 40000):
+        k, ops = 0, []
+        for _ in range(ctx.rng.randint(1, 120)):
+            r = ctx.rng.random()
+            if r < 0.45:
+                ops.append("s%d" % k); k += 1
+            elif r < 0.9:
+                ops.append("q")
+            else:
+                ops.append("g")
+        rc = ",".join("%d:%d" % (d, ctx.rng.choice([-1, 5, -7])) for d in range(k) if ctx.rng.random() < 0.05) or "-"
+        out.append("serial %s %s" % (rc, " ".join(ops)))
+    return out
+
+
+def compare_serial(ctx, stats):
+    """threadpool_serial.c (the FIFO reference the property names) against its model"""
+    h = ctx.cc("h_c09s", ["h_c09s.c", "lib/util/src/threadpool_serial.c"])
+    lines = serial_scripts(ctx)
+    impl, problems = run_parallel(ctx, [str(h)], lines, 600, pin=False)
+    model = model_run(ctx, lines)
+    for pb in problems[:2]:
+        ctx.violation("crash-serial:" + pb["script"], "threadpool_serial.c aborted (rc=%s) on: %s" % (pb["rc"], pb["script"]),
+                      {"script": pb["script"], "stderr": pb["stderr"]})
+    bad = 0
+    for l, a, b in zip(lines, impl, model):
+        if a != b:
+            bad += 1
+            if bad <= 3:
+                ctx.violation("corr-serial:" + l, "threadpool_serial.c and its model differ on '%s': impl=%s model=%s" % (l, a, b),
+                              {"script": l, "impl": a, "model": b}, found_input=False)
+    stats["serial_scripts"] = len(lines)
+    stats["disagreements"] += bad
+    return h
+
+
+def threaded_vs_serial(ctx, hserial, scripts, impl_lines, stats):
+    """failure-free schedules in which every API call returned: the threaded pool's return values must be the serial pool's"""
+    want, got = [], []
+    for sc, a in zip(scripts, impl_lines):
+        parts = sc.split()
+        if parts[3] != "-" or " | ne" in a or a == "<no output>":
+            continue
+        ops = [t for t in parts[4:] if t in ("q", "g", "x") or (t[0] == "s" and t[1:].isdigit())]
+        rets = [m for m in re.findall(r" r=(\S+)", a.split(" || ")[0]) if m != "-"]
+        if len(rets) != len(ops) or not ops:
+            continue
+        want.append("serial - " + " ".join(ops))
+        got.append(",".join(rets))
+    if not want:
+        return
+    ser, problems = run_parallel(ctx, [str(hserial)], want, 600, pin=False)
+    nb = 0
+    for w, g, s_ in zip(want, got, ser):
+        if g != s_:
+            nb += 1
+            if nb <= 3:
+                ctx.violation("refine:" + w, "failure-free run of the threaded pool returns %s where the serial pool returns %s for the calls '%s'" % (g, s_, w),
+                              {"ops": w, "threaded": g, "serial": s_})
+    stats["threaded_vs_serial"] = stats.get("threaded_vs_serial", 0) + len(want)
+    stats["disagreements"] += nb
 
 
 def probe_variant(ctx, harness):
@@ -331,6 +418,7 @@ def run(ctx):
         ctx.violation("corr:witness", "the real code follows neither the pinned nor the repaired model on the D1 witness schedule: %s" % wimpl,
                       {"script": wline, "impl": wimpl}, found_input=False)
         rep = 1
+    stats["hserial"] = compare_serial(ctx, stats)
     # corpus first
     corpus = []
     cdir = vlib.CORPUS / "C09"
@@ -377,6 +465,8 @@ def run(ctx):
         "enumerations": enum_cfgs,
         "histogram_scripts_reaching": stats["hist"],
         "d1_deadlock_schedules": stats["d1_deadlocks"],
+        "serial_pool_scripts": stats.get("serial_scripts", 0),
+        "threaded_vs_serial_return_value_comparisons": stats.get("threaded_vs_serial", 0),
         "disagreements_checked": stats["disagreements"],
         "harness_scripts_per_s": round(stats["scripts"] / stats["harness_s"], 1) if stats["harness_s"] else None,
         "harness_wall_s": round(stats["harness_s"], 1), "model_wall_s": round(stats["model_s"], 1),
